@@ -82,7 +82,13 @@ def enclosing_stmt(fn: ast.AST, node: ast.AST) -> ast.stmt:
     return block[idx]
 
 
-def guards(fn: ast.AST, node: ast.AST) -> List[Guard]:
+def conditions(fn: ast.AST, node: ast.AST) -> List[Guard]:
+    """Like `guards`, without the facts stated by `assert`: an assertion that fails stops the program loudly, it
+    does not make the statements after it 'conditional' in the sense of being silently skipped."""
+    return guards(fn, node, asserts=False)
+
+
+def guards(fn: ast.AST, node: ast.AST, asserts: bool = True) -> List[Guard]:
     """Conditions known to hold whenever `node` is evaluated inside `fn`."""
     out: List[Guard] = []
     chain = _stmt_chain(fn, node)
@@ -93,7 +99,8 @@ def guards(fn: ast.AST, node: ast.AST) -> List[Guard]:
             out.append((owner.test, True))
         for prev in block[:idx]:
             if isinstance(prev, ast.Assert):
-                out.append((prev.test, True))
+                if asserts:
+                    out.append((prev.test, True))
             elif isinstance(prev, ast.If):
                 body_exits = always_exits(prev.body)
                 else_exits = always_exits(prev.orelse)
